@@ -12,6 +12,5 @@ export JAVA_TOOL_OPTIONS="${JAVA_TOOL_OPTIONS:--XX:TieredStopAtLevel=1 -XX:Paral
 tlc -workers 1 -metadir "$OUT/states" -dump dot,actionlabels "$OUT/assoc.dot" -config Assoc.cfg Assoc.tla >"$OUT/tlc.log" 2>&1 \
   || { cat "$OUT/tlc.log"; echo "TLC failed"; exit 1; }
 grep -q "Model checking completed. No error has been found." "$OUT/tlc.log" || { cat "$OUT/tlc.log"; echo "TLC reported an error"; exit 1; }
-python3 "$ROOT/tla/graph2nfa.py" build "$OUT/assoc.dot" "$OUT/assoc.json" --conf FALSE --log "$OUT/tlc.log"
-python3 "$ROOT/tla/graph2nfa.py" build "$OUT/assoc.dot" "$OUT/assoc_scp.json" --conf TRUE --log "$OUT/tlc.log"
+python3 "$ROOT/tla/graph2nfa.py" build "$OUT/assoc.dot" "$OUT/assoc.json" --conf FALSE --log "$OUT/tlc.log" --also TRUE "$OUT/assoc_scp.json"
 test -s "$OUT/assoc.json" && test -s "$OUT/assoc_scp.json"
